@@ -119,7 +119,8 @@ def run(ctx):
                 any(call_name(c) in ("append", "add") for c in n.calls()) or any(isinstance(x, ast.Yield) for x in n.walk()) or (
                     isinstance(n.stmt, ast.Assign) and isinstance(n.stmt.targets[0], ast.Subscript)))]
             for sn in sinks_:
-                deps = [norm(t.stmt.test) for t, lab in cfd_.control_deps_transitive(sn.id, within=lbody) if t.kind == "test" and "api_version" not in norm(t.stmt.test)]
+                deps = [norm(t.stmt.test) for t, lab in cfd_.control_deps_transitive(sn.id, within=lbody) if t.kind == "test" and isinstance(
+                    t.stmt, ast.If) and "api_version" not in norm(t.stmt.test)]
                 r.check(not deps, "%s.%s#element-collected(%s)" % (KCQ, name, sn.text(40)),
                         "an element read inside a counted loop is collected only when %s" % deps, where(f, sn.stmt),
                         "entries the decoder does not like are silently dropped: the decoded list is shorter than what was encoded")
